@@ -1,7 +1,12 @@
 import PynencModel.Props.C10
-open Pynenc.C10
+import PynencModel.Props.C10Flush
+open Pynenc.C10 Pynenc.C10F
 #print axioms transition_followed_by_history
 #print axioms conservation
 #print axioms history_multiset_eq_transitions
 #print axioms history_sorted_is_the_change_sequence
 #print axioms stored_subset_log
+#print axioms inv_step
+#print axioms flush_waits_for_every_writer
+#print axioms pruning_lets_the_flush_return_early
+#print axioms code_tracks_before_start_and_never_forgets
